@@ -140,7 +140,7 @@ impl Scenario for EciesNet {
             if mode == "priv_encrypt_message" {
                 r_idx = s_idx;
             }
-            events.push(json!({"op": "send", "pkt": p, "sender": sender, "mode": mode, "skey": keys[s_idx as usize], "rkey": keys[r_idx as usize], "r_compressed": rng.chance(2, 3),
+            events.push(json!({"op": "send", "pkt": p, "sender": sender, "mode": mode, "skey": keys[s_idx as usize], "rkey": keys[r_idx as usize], "r_compressed": rng.chance(2, 3), "s_uncompressed": rng.chance(1, 4),
                 "msg": hx(&{
                     let mut m = rng.bytes(mlen);
                     // plaintexts whose tail looks like PKCS#7 padding (last byte 1..16, possibly a run of it)
@@ -223,6 +223,14 @@ impl Scenario for EciesNet {
                                 ctx.skip();
                                 continue;
                             }
+                        };
+                        // round 11: the sender's private key may be one whose public key is flagged uncompressed (an uncompressed
+                        // WIF, compress_public_key(false)); BIE1 embeds and authenticates the compressed sender key whatever the flag
+                        let sk = if jbool(ev, "s_uncompressed") {
+                            ctx.probe("sender_private_key_flagged_uncompressed");
+                            sk.compress_public_key(false)
+                        } else {
+                            sk
                         };
                         let rk_pub = match PublicKey::from_bytes(&rpub) {
                             Ok(k) => k,
